@@ -156,7 +156,7 @@ func (r *runner) flush(last M) {
 	}
 	post := last["post"].(M)
 	for i, cl := range post["cl"].([]M) {
-		if st := cl["state"].(string); st == "none" || st == "unsub" {
+		if !cl["live"].(bool) {
 			continue
 		}
 		for n := 0; n < 200; n++ {
